@@ -720,3 +720,36 @@ def str_conversions(check: Check, repo: Repo, rule: str = "STR-TOTAL") -> None:
                      why if ok else f"`{unparse(a)}` is not known to be a str here ({ty or 'Any'}): a non-string key reaches .lower()")
     if n < 5:
         raise AnalysisError("STR-TOTAL: suggestion_list call sites not found")
+
+
+SCHEMA_RAISE_ALLOWED = {
+    # (function that contains the raise, class) -> why it cannot be reached by an invalid *schema*
+    ("assert_schema", "TypeError"): "precondition on the argument itself: validate_schema(<not a schema>) is a caller error, not an invalid schema",
+    ("assert_leaf_type", "TypeError"): "validate_input_value_impl reaches it after the non-null, list and input-object arms: the type of an input position that passed is_input_type is a leaf there",
+    ("format_list", "ValueError"): "and_list() is called with the operation types sharing a root type, at least two names",
+    ("inspect_recursive", "Exception"): "`raise AttributeError` inside inspect_recursive's own try/except AttributeError (control flow for objects without __inspect__)",
+}
+
+
+def schema_validation_total(check: Check, repo: Repo, mr: MayRaise, rule: str = "SCHEMA-VALIDATION-TOTAL") -> None:
+    check.rule(
+        rule,
+        "validate_schema reports, it does not raise: the explicit raise statements that can leave validate_schema "
+        "(through the resolved call graph, minus local handlers) are exactly the named defensive ones in "
+        "SCHEMA_RAISE_ALLOWED, each with the reason why an invalid schema cannot reach it. A helper that *assumes* the "
+        "property being validated (coerce_default_value raises TypeError for a default that does not coerce) may not be "
+        "called from a validation step: the invalid schema would make graphql_sync raise instead of returning the errors",
+    )
+    fn = repo.func("type.validate", "validate_schema")
+    sites = mr.sites(fn)
+    seen = set()
+    for (cls, site), chain in sorted(sites.items()):
+        term = chain.split(" -> ")[-1].split(":")[0]
+        key = (term, cls)
+        if key in seen:
+            continue
+        seen.add(key)
+        why = SCHEMA_RAISE_ALLOWED.get(key)
+        check.ob(rule, fn, f"validate_schema: {cls} raised in {term}()", why is not None,
+                 f"allowed: {why}" if why else f"can leave validate_schema: {chain[:260]}")
+    check.floor(rule, 2, "explicit raise sites reachable from validate_schema")
